@@ -121,10 +121,8 @@ def worker(job):
     ops = [A.as_arr(g) for g in G]
     cfg = dict(D=D, M=M, k=k, parity=p, group=gname, order=len(G))
     problems = []
-    try:
-        common.basis_cache.clear()
-    except Exception:
-        pass
+    # the module-level basis cache is deliberately NOT cleared between obligations of a worker process:
+    # a cache key that forgets D, k or M would hand a stale basis to a later configuration
     res = attempt(lambda: it.call_prefix(common.get_unique_invariant_filters, (M, k, p, D, ops), {}, n_stmts))
     if isinstance(res, Rejected):
         problems.append(("rejected", "rejected: %s" % res.exc, None))
